@@ -7,7 +7,9 @@ extern unsigned g_poll_calls;	/* number of poll calls (saturating) */
 extern int g_poll_timeout;	/* timeout argument of the latest call */
 extern size_t g_poll_nfds;	/* nfds argument of the latest call */
 extern int g_poll_lastrc;	/* result of the latest call */
-extern int g_poll_lasterrno;	/* errno set by the latest failed call */
+extern int g_poll_lasterrno;
+#define EV_POLL_EINTR_UNLIMITED 0xffffffffu
+extern unsigned g_poll_eintr_left;	/* EINTR results poll may still produce (EV_POLL_EINTR_UNLIMITED: no limit) */	/* errno set by the latest failed call */
 /* due monitor of descriptor g_ns (see contracts/events__events_network.c.spec) */
 extern size_t g_ns;
 extern int g_rdy_r, g_rdy_w, g_errhup;
